@@ -462,7 +462,11 @@ def resolve(e, env, depth=0):
             fname = show(resolve(f, env, depth + 1))  # curried combinator: char('@')(input)
         else:
             fname = "?"
-        return ("call", fname, tuple(resolve(a, env, depth + 1) for a in e["args"]))
+        rargs = tuple(resolve(a, env, depth + 1) for a in e["args"])
+        if fname in ("Some", "Ok") and len(rargs) == 1 and rargs[0][0] == "bind" and rargs[0][1] == fname and str(rargs[0][2]) == "0" and len(rargs[0]) > 3 and isinstance(rargs[0][3], tuple):
+            # `Some(x)` where `Some(x) = E` was matched: the option E itself, put together again
+            return rargs[0][3]
+        return ("call", fname, rargs)
     if k == "Lit":
         return ("lit", e["v"])
     if k == "Field":
